@@ -389,6 +389,30 @@ class Env:
         crc = self.reg.checksum_calculator.calculate(eh.checksum_data + payload)
         return bytes(eh.header_bytes + payload + crc)
 
+    def frame(self, mid, payload):
+        """a frame intact on the wire (prefix, addresses, length, CRC) with the given payload"""
+        if self.gen == 4:
+            import pyairtouch.at4.comms.hdr as H
+            h = H.At4Header(to_address=0xB0, from_address=0x80, packet_id=1, message_id=mid, message_length=len(payload))
+        else:
+            import pyairtouch.at5.comms.hdr as H
+            h = H.At5Header(to_address=0xB0, from_address=0x80, packet_id=1, message_id=mid, message_length=len(payload))
+        eh = self.reg.header_encoder.encode(h)
+        return bytes(eh.header_bytes) + payload + bytes(self.reg.checksum_calculator.calculate(eh.checksum_data + payload))
+
+    def undecodable_frame(self, what):
+        """intact frames whose CONTENT the decoders refuse, each in its own way: a name that is not UTF-8 (UnicodeDecodeError, a
+        ValueError), an undefined enumeration value (ValueError), a sub-message shorter than its fixed part (struct.error / IndexError)"""
+        if what == "badtext":
+            return self.frame(0x1F, bytes.fromhex("ff12") + bytes([0]) + b"\xff\xfeabcdef") if self.gen == 4 else \
+                self.frame(0x1F, bytes.fromhex("ff13") + bytes([0, 3, 0xFF, 0xFE, 0x41]))
+        if what == "badenum":
+            # AT4 AC status: mode nibble 0x0F; AT5 AC status: fan speed nibble 7 (both undefined)
+            return self.frame(0x2D, bytes([0x80, 0xF1, 0x3F, 0x80, 0x00, 0x00, 0x00, 0x00])) if self.gen == 4 else \
+                self.frame(0xC0, bytes.fromhex("2300000000080001") + bytes([0x10, 0x47, 0x80, 0x00, 0x02, 0xBC, 0x00, 0x00]))
+        # short
+        return self.frame(0x1F, bytes.fromhex("ff")) if self.gen == 4 else self.frame(0xC0, bytes.fromhex("230000"))
+
     def latest(self):
         return self.net.conns[-1] if self.net.conns else None
 
@@ -465,6 +489,9 @@ class Env:
                     f = bytearray(self.status_frame())
                     f[-1] ^= 0x01
                     c.peer_send(bytes(f))
+                elif what in ("badtext", "badenum", "short"):
+                    self.rec.emit("envPeerSend", c.cid, what, ticks(self.loop.time()))
+                    c.peer_send(self.undecodable_frame(what))
                 elif what == "trunc":
                     self.rec.emit("envPeerSend", c.cid, "trunc", ticks(self.loop.time()))
                     c.peer_send(self.status_frame()[:-3])
